@@ -443,9 +443,15 @@ def ack_rule(rep, prog, cfg):
         for bb, i, s in b3.stmts():
             if s["k"] == "assign" and s["rv"]["k"] == "agg" and s["rv"]["agg"] == "adt" and norm(s["rv"]["adt_name"]) == "mpd_protocol::response::Error":
                 for fname, op in zip(s["rv"]["fields"], s["rv"]["ops"]):
-                    src = self_field(b3, op_local(op))
+                    thr = []
+                    src = self_field(b3, op_local(op), through=thr)
                     rep.check(src == fname, rule, "%s/Error.%s<-%s" % (cfg, fname, src), b3.loc(s["span"]),
                               "Error.%s is filled from the parsed field %r" % (fname, src))
+                    # ... and verbatim: only ownership / view conversions between the captured text and the field
+                    lossy = [x for x in thr if x not in KEEPS_VALUE]
+                    rep.check(not lossy, rule, "%s/Error.%s stored verbatim" % (cfg, fname), b3.loc(s["span"]),
+                              "Error.%s passes through %s on its way from the parsed ACK line: the client no longer reports what the server sent "
+                              "(only ownership conversions such as Box::from / to_owned keep the value)" % (fname, lossy), detail={"through": thr})
     else:
         rep.fail(rule + ".anchor", cfg + "/into_owned_error", "parser.rs", "RawError::into_owned_error not found")
 
@@ -468,14 +474,26 @@ def tuple_path(body, local, depth=8):
     return None
 
 
-def self_field(body, local, depth=6):
-    """Named field of `self` (_1) that flows into `local` through moves and identity-like calls."""
+KEEPS_VALUE = ("from", "into", "to_owned", "to_string", "into_boxed_str", "clone", "as_ref", "deref", "borrow", "to_vec", "into_string", "as_str")
+
+
+def self_field(body, local, depth=6, through=None):
+    """Named field of `self` (_1) that flows into `local` through moves and calls; the calls passed through are appended to
+    `through` (names; for Option::map / Result::map the mapped function item, or '<closure>')."""
     for _ in range(depth):
         if local is None:
             return None
         defs = [s for bb, i, s in body.stmts() if s["k"] == "assign" and s["place"]["l"] == local and not s["place"]["p"]]
         cdefs = [t for bb, t in body.calls() if t["dest"]["l"] == local and not t["dest"]["p"]]
         if cdefs and not defs:
+            if through is not None:
+                ns = callee_names(cdefs[0])
+                short = (ns[0] if ns else "?").rsplit("::", 1)[-1].split("::<")[0]
+                if short in ("map", "and_then", "map_or") and len(cdefs[0]["args"]) >= 2:
+                    c = op_const(cdefs[0]["args"][-1])
+                    through.append(norm(c["fn"]["name"]).rsplit("::", 1)[-1] if c is not None and "fn" in c else "<closure>")
+                else:
+                    through.append(short)
             local = op_local(cdefs[0]["args"][0]) if cdefs[0]["args"] else None
             continue
         if len(defs) != 1:
